@@ -291,6 +291,8 @@ where
                             Vec::with_capacity((u32::BITS / 8) as usize + (*data_len as usize));
                         payload.extend(frame_id.to_ne_bytes());
                         if let Some(mut data) = data {
+                            // needs to fit into a DLT msg (u16 len). (no valid frame is that long)
+                            data.truncate(u16::MAX as usize - 256);
                             payload.append(&mut data);
                         }
 
@@ -380,6 +382,8 @@ where
                             Vec::with_capacity((u32::BITS / 8) as usize + (*data_len as usize));
                         payload.extend(frame_id.to_ne_bytes());
                         if let Some(mut data) = data {
+                            // needs to fit into a DLT msg (u16 len). (no valid frame is that long)
+                            data.truncate(u16::MAX as usize - 256);
                             payload.append(&mut data);
                         }
                         // return a DltMessage
